@@ -936,7 +936,12 @@ def _assemble(repo, spec, rows=None, canary=None, opts=None):
                     text += e['text']
             if canary == path and kind == 'verified':
                 text = text.rstrip('\n')
-                text += ('\n' if text else '') + ('    ensures false, // CANARY\n' if not re.search(r'\bensures\b', text) else '        false, // CANARY\n')
+                add = '    ensures false, // CANARY\n' if not re.search(r'\bensures\b', text) else '        false, // CANARY\n'
+                md = re.search(r'^[ \t]*decreases\b', text, re.M)
+                if md:   # the canary clause belongs to the ensures list, which precedes `decreases`
+                    text = text[:md.start()] + add + text[md.start():] + '\n'
+                else:
+                    text += ('\n' if text else '') + add
             if text.strip():
                 ed.insert(it['body_start'], '\n' + text + indent, prio=0)
             if e and kind == 'verified':
